@@ -136,6 +136,7 @@ func ScriptFarViews(seed int64, worlds int, limit time.Duration) ([]Violation, *
 		desc := fmt.Sprintf("n=%d weights=%v node=%s T=%d", n, weights, myId, T)
 		stuck := func(what string) {
 			viol = append(viol, Violation{Prop: "C18", Rule: "handling-a-received-view-does-not-complete", Detail: desc + ": " + what + fmt.Sprintf(" is still running after %v", limit), Step: len(w.Trace)})
+			viol = append(viol, Violation{Prop: "C12", Rule: "node-wedged-while-handling-a-received-view", Detail: desc + ": " + what + fmt.Sprintf(" is still running after %v (seven orders of magnitude above its normal cost): the worker is stuck, the node handles nothing any more", limit), Step: len(w.Trace)})
 			st.HandlerStillRunningFor = what
 		}
 		timed := func(what string, f func()) bool {
@@ -320,13 +321,19 @@ func ScriptFarViews(seed int64, worlds int, limit time.Duration) ([]Violation, *
 			}
 			lockedBefore := w.Mon.Stats["C09 locked view changes judged"]
 			for r := 0; r < rounds && ok; r++ {
-				atLast := uint64(node.St.View()) == ^uint64(0)
+				vBefore := uint64(node.St.View())
+				atLast := vBefore == ^uint64(0)
 				fired := false
 				ok = timed("the election timeout of that view", func() { fired = w.Timeout(node) })
 				if fired {
 					st.Timeouts++
 					if atLast {
 						st.TimeoutsAtTheLastView++
+					} else if ok && uint64(node.St.View()) != vBefore+1 {
+						// every view has a successor (the last one excepted): the timeout of view v takes the node to v+1
+						for _, p := range []string{"C18", "C05"} {
+							viol = append(viol, Violation{Prop: p, Rule: "election-timeout-did-not-move-to-the-next-view", Detail: desc + fmt.Sprintf(": the election timeout of view %d was handed to the worker; the node is in view %d, not %d", vBefore, uint64(node.St.View()), vBefore+1), Step: len(w.Trace)})
+						}
 					}
 				}
 			}
